@@ -779,3 +779,671 @@ Lemma gen_bls381fq_square_in_place_model a0 a1 a2 a3 a4 a5 :
   wf [a0; a1; a2; a3; a4; a5] -> val [a0; a1; a2; a3; a4; a5] < gen_bls381fq_modulus_attr ->
   gen_bls381fq_square_in_place (inv_of gen_bls381fq_modulus) a0 a1 a2 a3 a4 a5 = square_in_place true gen_bls381fq_modulus [a0; a1; a2; a3; a4; a5].
 Proof. intros Ha Hx. pose proof (proj1 gen_bls381fq_modulus_val) as Hv. pose proof gen_bls381fq_modulus_wf as Hm. pose proof gen_bls381fq_modulus_odd as Ho. pose proof gen_bls381fq_modulus_ne as Hne. rewrite <- Hv in *. rewrite gen_bls381fq_square_in_place_eq. cbv [square_in_place length Nat.eqb gen_bls381fq_modulus]. reflexivity. Qed.
+
+(* ================= sum_of_products::<M> (interleaved branch: M <= chunk size) ================= *)
+(* the generated code starts each row with `fa::mac(.., &mut carry2)` on a zero carry; the model's mac_row starts
+   with mac_with_carry on the carry 0 *)
+Lemma mac_with_carry_m_0 a b c : mac_with_carry_m a b c 0 = mac a b c 0.
+Proof. unfold mac_with_carry_m, mac. cbv zeta. rewrite Z.add_0_r, Z.mod_mod by (cbv; discriminate). reflexivity. Qed.
+Ltac norm_mac0 := repeat match goal with |- context [mac_with_carry_m ?a ?b ?c 0] => rewrite (mac_with_carry_m_0 a b c) end.
+Ltac crush0 := repeat (cbv beta iota zeta; norm_mac0; hstep).
+Lemma gen_r62_sop_branch ab :
+  (length ab <= 3)%nat -> sum_of_products true gen_r62_modulus ab = sop_interleaved_ab gen_r62_modulus ab.
+Proof. intros H. unfold sum_of_products. replace (const_num_bits gen_r62_modulus) with 62 by (vm_compute; reflexivity). change (64 * Z.of_nat (length gen_r62_modulus) - 1 <=? 62) with false. cbv iota. change (Z.to_nat (2 * (Z.of_nat (length gen_r62_modulus) * 64 - 62) - 1)) with 3%nat. destruct (Nat.leb_spec (length ab) 3); [reflexivity | lia]. Qed.
+Lemma gen_r62_sum_of_products_1_eq a0l0 b0l0 :
+  gen_r62_sum_of_products_1 (inv_of gen_r62_modulus) a0l0 b0l0 = sop_interleaved_ab gen_r62_modulus
+    [([a0l0], [b0l0])].
+Proof. cbv [gen_r62_sum_of_products_1 gen_r62_modulus sop_interleaved_ab sop_row_ab sop_red fold_left seq nth mac_row length zeros repeat app Nat.add subtract_modulus subtract_modulus_with_carry is_geq_modulus sub_with_borrow sub_chain add_with_carry add_chain fst snd negb orb andb]. gen_lits gen_r62_modulus. crush0. Qed.
+Lemma gen_r62_sum_of_products_1_spec a0l0 b0l0 :
+  let ab := [([a0l0], [b0l0])] in
+  Forall (okpair gen_r62_modulus) ab ->
+  let r := gen_r62_sum_of_products_1 (inv_of gen_r62_modulus) a0l0 b0l0 in
+  r = sum_of_products true gen_r62_modulus ab /\ elem_ok gen_r62_modulus r /\ std gen_r62_modulus r = dot gen_r62_modulus ab 0 mod gen_r62_modulus_attr.
+Proof. intros ab Hab. cbv zeta. rewrite gen_r62_sum_of_products_1_eq. fold ab. rewrite <- (gen_r62_sop_branch ab) by (cbv [ab length]; lia). split; [reflexivity|]. rewrite <- (proj1 gen_r62_modulus_val). exact (sum_of_products_spec true gen_r62_modulus ab gen_r62_modulus_wf gen_r62_modulus_odd Hab). Qed.
+Lemma gen_r62_sum_of_products_2_eq a0l0 a1l0 b0l0 b1l0 :
+  gen_r62_sum_of_products_2 (inv_of gen_r62_modulus) a0l0 a1l0 b0l0 b1l0 = sop_interleaved_ab gen_r62_modulus
+    [([a0l0], [b0l0]); ([a1l0], [b1l0])].
+Proof. cbv [gen_r62_sum_of_products_2 gen_r62_modulus sop_interleaved_ab sop_row_ab sop_red fold_left seq nth mac_row length zeros repeat app Nat.add subtract_modulus subtract_modulus_with_carry is_geq_modulus sub_with_borrow sub_chain add_with_carry add_chain fst snd negb orb andb]. gen_lits gen_r62_modulus. crush0. Qed.
+Lemma gen_r62_sum_of_products_2_spec a0l0 a1l0 b0l0 b1l0 :
+  let ab := [([a0l0], [b0l0]); ([a1l0], [b1l0])] in
+  Forall (okpair gen_r62_modulus) ab ->
+  let r := gen_r62_sum_of_products_2 (inv_of gen_r62_modulus) a0l0 a1l0 b0l0 b1l0 in
+  r = sum_of_products true gen_r62_modulus ab /\ elem_ok gen_r62_modulus r /\ std gen_r62_modulus r = dot gen_r62_modulus ab 0 mod gen_r62_modulus_attr.
+Proof. intros ab Hab. cbv zeta. rewrite gen_r62_sum_of_products_2_eq. fold ab. rewrite <- (gen_r62_sop_branch ab) by (cbv [ab length]; lia). split; [reflexivity|]. rewrite <- (proj1 gen_r62_modulus_val). exact (sum_of_products_spec true gen_r62_modulus ab gen_r62_modulus_wf gen_r62_modulus_odd Hab). Qed.
+Lemma gen_r62_sum_of_products_3_eq a0l0 a1l0 a2l0 b0l0 b1l0 b2l0 :
+  gen_r62_sum_of_products_3 (inv_of gen_r62_modulus) a0l0 a1l0 a2l0 b0l0 b1l0 b2l0 = sop_interleaved_ab gen_r62_modulus
+    [([a0l0], [b0l0]); ([a1l0], [b1l0]); ([a2l0], [b2l0])].
+Proof. cbv [gen_r62_sum_of_products_3 gen_r62_modulus sop_interleaved_ab sop_row_ab sop_red fold_left seq nth mac_row length zeros repeat app Nat.add subtract_modulus subtract_modulus_with_carry is_geq_modulus sub_with_borrow sub_chain add_with_carry add_chain fst snd negb orb andb]. gen_lits gen_r62_modulus. crush0. Qed.
+Lemma gen_r62_sum_of_products_3_spec a0l0 a1l0 a2l0 b0l0 b1l0 b2l0 :
+  let ab := [([a0l0], [b0l0]); ([a1l0], [b1l0]); ([a2l0], [b2l0])] in
+  Forall (okpair gen_r62_modulus) ab ->
+  let r := gen_r62_sum_of_products_3 (inv_of gen_r62_modulus) a0l0 a1l0 a2l0 b0l0 b1l0 b2l0 in
+  r = sum_of_products true gen_r62_modulus ab /\ elem_ok gen_r62_modulus r /\ std gen_r62_modulus r = dot gen_r62_modulus ab 0 mod gen_r62_modulus_attr.
+Proof. intros ab Hab. cbv zeta. rewrite gen_r62_sum_of_products_3_eq. fold ab. rewrite <- (gen_r62_sop_branch ab) by (cbv [ab length]; lia). split; [reflexivity|]. rewrite <- (proj1 gen_r62_modulus_val). exact (sum_of_products_spec true gen_r62_modulus ab gen_r62_modulus_wf gen_r62_modulus_odd Hab). Qed.
+Lemma gen_r125_sop_branch ab :
+  (length ab <= 5)%nat -> sum_of_products true gen_r125_modulus ab = sop_interleaved_ab gen_r125_modulus ab.
+Proof. intros H. unfold sum_of_products. replace (const_num_bits gen_r125_modulus) with 125 by (vm_compute; reflexivity). change (64 * Z.of_nat (length gen_r125_modulus) - 1 <=? 125) with false. cbv iota. change (Z.to_nat (2 * (Z.of_nat (length gen_r125_modulus) * 64 - 125) - 1)) with 5%nat. destruct (Nat.leb_spec (length ab) 5); [reflexivity | lia]. Qed.
+Lemma gen_r125_sum_of_products_1_eq a0l0 a0l1 b0l0 b0l1 :
+  gen_r125_sum_of_products_1 (inv_of gen_r125_modulus) a0l0 a0l1 b0l0 b0l1 = sop_interleaved_ab gen_r125_modulus
+    [([a0l0; a0l1], [b0l0; b0l1])].
+Proof. cbv [gen_r125_sum_of_products_1 gen_r125_modulus sop_interleaved_ab sop_row_ab sop_red fold_left seq nth mac_row length zeros repeat app Nat.add subtract_modulus subtract_modulus_with_carry is_geq_modulus sub_with_borrow sub_chain add_with_carry add_chain fst snd negb orb andb]. gen_lits gen_r125_modulus. crush0. Qed.
+Lemma gen_r125_sum_of_products_1_spec a0l0 a0l1 b0l0 b0l1 :
+  let ab := [([a0l0; a0l1], [b0l0; b0l1])] in
+  Forall (okpair gen_r125_modulus) ab ->
+  let r := gen_r125_sum_of_products_1 (inv_of gen_r125_modulus) a0l0 a0l1 b0l0 b0l1 in
+  r = sum_of_products true gen_r125_modulus ab /\ elem_ok gen_r125_modulus r /\ std gen_r125_modulus r = dot gen_r125_modulus ab 0 mod gen_r125_modulus_attr.
+Proof. intros ab Hab. cbv zeta. rewrite gen_r125_sum_of_products_1_eq. fold ab. rewrite <- (gen_r125_sop_branch ab) by (cbv [ab length]; lia). split; [reflexivity|]. rewrite <- (proj1 gen_r125_modulus_val). exact (sum_of_products_spec true gen_r125_modulus ab gen_r125_modulus_wf gen_r125_modulus_odd Hab). Qed.
+Lemma gen_r125_sum_of_products_2_eq a0l0 a0l1 a1l0 a1l1 b0l0 b0l1 b1l0 b1l1 :
+  gen_r125_sum_of_products_2 (inv_of gen_r125_modulus) a0l0 a0l1 a1l0 a1l1 b0l0 b0l1 b1l0 b1l1 = sop_interleaved_ab gen_r125_modulus
+    [([a0l0; a0l1], [b0l0; b0l1]); ([a1l0; a1l1], [b1l0; b1l1])].
+Proof. cbv [gen_r125_sum_of_products_2 gen_r125_modulus sop_interleaved_ab sop_row_ab sop_red fold_left seq nth mac_row length zeros repeat app Nat.add subtract_modulus subtract_modulus_with_carry is_geq_modulus sub_with_borrow sub_chain add_with_carry add_chain fst snd negb orb andb]. gen_lits gen_r125_modulus. crush0. Qed.
+Lemma gen_r125_sum_of_products_2_spec a0l0 a0l1 a1l0 a1l1 b0l0 b0l1 b1l0 b1l1 :
+  let ab := [([a0l0; a0l1], [b0l0; b0l1]); ([a1l0; a1l1], [b1l0; b1l1])] in
+  Forall (okpair gen_r125_modulus) ab ->
+  let r := gen_r125_sum_of_products_2 (inv_of gen_r125_modulus) a0l0 a0l1 a1l0 a1l1 b0l0 b0l1 b1l0 b1l1 in
+  r = sum_of_products true gen_r125_modulus ab /\ elem_ok gen_r125_modulus r /\ std gen_r125_modulus r = dot gen_r125_modulus ab 0 mod gen_r125_modulus_attr.
+Proof. intros ab Hab. cbv zeta. rewrite gen_r125_sum_of_products_2_eq. fold ab. rewrite <- (gen_r125_sop_branch ab) by (cbv [ab length]; lia). split; [reflexivity|]. rewrite <- (proj1 gen_r125_modulus_val). exact (sum_of_products_spec true gen_r125_modulus ab gen_r125_modulus_wf gen_r125_modulus_odd Hab). Qed.
+Lemma gen_bn254fr_sop_branch ab :
+  (length ab <= 3)%nat -> sum_of_products true gen_bn254fr_modulus ab = sop_interleaved_ab gen_bn254fr_modulus ab.
+Proof. intros H. unfold sum_of_products. replace (const_num_bits gen_bn254fr_modulus) with 254 by (vm_compute; reflexivity). change (64 * Z.of_nat (length gen_bn254fr_modulus) - 1 <=? 254) with false. cbv iota. change (Z.to_nat (2 * (Z.of_nat (length gen_bn254fr_modulus) * 64 - 254) - 1)) with 3%nat. destruct (Nat.leb_spec (length ab) 3); [reflexivity | lia]. Qed.
+Lemma gen_bn254fr_sum_of_products_1_eq a0l0 a0l1 a0l2 a0l3 b0l0 b0l1 b0l2 b0l3 :
+  gen_bn254fr_sum_of_products_1 (inv_of gen_bn254fr_modulus) a0l0 a0l1 a0l2 a0l3 b0l0 b0l1 b0l2 b0l3 = sop_interleaved_ab gen_bn254fr_modulus
+    [([a0l0; a0l1; a0l2; a0l3], [b0l0; b0l1; b0l2; b0l3])].
+Proof. cbv [gen_bn254fr_sum_of_products_1 gen_bn254fr_modulus sop_interleaved_ab sop_row_ab sop_red fold_left seq nth mac_row length zeros repeat app Nat.add subtract_modulus subtract_modulus_with_carry is_geq_modulus sub_with_borrow sub_chain add_with_carry add_chain fst snd negb orb andb]. gen_lits gen_bn254fr_modulus. crush0. Qed.
+Lemma gen_bn254fr_sum_of_products_1_spec a0l0 a0l1 a0l2 a0l3 b0l0 b0l1 b0l2 b0l3 :
+  let ab := [([a0l0; a0l1; a0l2; a0l3], [b0l0; b0l1; b0l2; b0l3])] in
+  Forall (okpair gen_bn254fr_modulus) ab ->
+  let r := gen_bn254fr_sum_of_products_1 (inv_of gen_bn254fr_modulus) a0l0 a0l1 a0l2 a0l3 b0l0 b0l1 b0l2 b0l3 in
+  r = sum_of_products true gen_bn254fr_modulus ab /\ elem_ok gen_bn254fr_modulus r /\ std gen_bn254fr_modulus r = dot gen_bn254fr_modulus ab 0 mod gen_bn254fr_modulus_attr.
+Proof. intros ab Hab. cbv zeta. rewrite gen_bn254fr_sum_of_products_1_eq. fold ab. rewrite <- (gen_bn254fr_sop_branch ab) by (cbv [ab length]; lia). split; [reflexivity|]. rewrite <- (proj1 gen_bn254fr_modulus_val). exact (sum_of_products_spec true gen_bn254fr_modulus ab gen_bn254fr_modulus_wf gen_bn254fr_modulus_odd Hab). Qed.
+Lemma gen_bn254fr_sum_of_products_2_eq a0l0 a0l1 a0l2 a0l3 a1l0 a1l1 a1l2 a1l3 b0l0 b0l1 b0l2 b0l3 b1l0 b1l1 b1l2 b1l3 :
+  gen_bn254fr_sum_of_products_2 (inv_of gen_bn254fr_modulus) a0l0 a0l1 a0l2 a0l3 a1l0 a1l1 a1l2 a1l3 b0l0 b0l1 b0l2 b0l3 b1l0 b1l1 b1l2 b1l3 = sop_interleaved_ab gen_bn254fr_modulus
+    [([a0l0; a0l1; a0l2; a0l3], [b0l0; b0l1; b0l2; b0l3]); ([a1l0; a1l1; a1l2; a1l3], [b1l0; b1l1; b1l2; b1l3])].
+Proof. cbv [gen_bn254fr_sum_of_products_2 gen_bn254fr_modulus sop_interleaved_ab sop_row_ab sop_red fold_left seq nth mac_row length zeros repeat app Nat.add subtract_modulus subtract_modulus_with_carry is_geq_modulus sub_with_borrow sub_chain add_with_carry add_chain fst snd negb orb andb]. gen_lits gen_bn254fr_modulus. crush0. Qed.
+Lemma gen_bn254fr_sum_of_products_2_spec a0l0 a0l1 a0l2 a0l3 a1l0 a1l1 a1l2 a1l3 b0l0 b0l1 b0l2 b0l3 b1l0 b1l1 b1l2 b1l3 :
+  let ab := [([a0l0; a0l1; a0l2; a0l3], [b0l0; b0l1; b0l2; b0l3]); ([a1l0; a1l1; a1l2; a1l3], [b1l0; b1l1; b1l2; b1l3])] in
+  Forall (okpair gen_bn254fr_modulus) ab ->
+  let r := gen_bn254fr_sum_of_products_2 (inv_of gen_bn254fr_modulus) a0l0 a0l1 a0l2 a0l3 a1l0 a1l1 a1l2 a1l3 b0l0 b0l1 b0l2 b0l3 b1l0 b1l1 b1l2 b1l3 in
+  r = sum_of_products true gen_bn254fr_modulus ab /\ elem_ok gen_bn254fr_modulus r /\ std gen_bn254fr_modulus r = dot gen_bn254fr_modulus ab 0 mod gen_bn254fr_modulus_attr.
+Proof. intros ab Hab. cbv zeta. rewrite gen_bn254fr_sum_of_products_2_eq. fold ab. rewrite <- (gen_bn254fr_sop_branch ab) by (cbv [ab length]; lia). split; [reflexivity|]. rewrite <- (proj1 gen_bn254fr_modulus_val). exact (sum_of_products_spec true gen_bn254fr_modulus ab gen_bn254fr_modulus_wf gen_bn254fr_modulus_odd Hab). Qed.
+Lemma gen_bn254fr_sum_of_products_3_eq a0l0 a0l1 a0l2 a0l3 a1l0 a1l1 a1l2 a1l3 a2l0 a2l1 a2l2 a2l3 b0l0 b0l1 b0l2 b0l3 b1l0 b1l1 b1l2 b1l3 b2l0 b2l1 b2l2 b2l3 :
+  gen_bn254fr_sum_of_products_3 (inv_of gen_bn254fr_modulus) a0l0 a0l1 a0l2 a0l3 a1l0 a1l1 a1l2 a1l3 a2l0 a2l1 a2l2 a2l3 b0l0 b0l1 b0l2 b0l3 b1l0 b1l1 b1l2 b1l3 b2l0 b2l1 b2l2 b2l3 = sop_interleaved_ab gen_bn254fr_modulus
+    [([a0l0; a0l1; a0l2; a0l3], [b0l0; b0l1; b0l2; b0l3]); ([a1l0; a1l1; a1l2; a1l3], [b1l0; b1l1; b1l2; b1l3]); ([a2l0; a2l1; a2l2; a2l3], [b2l0; b2l1; b2l2; b2l3])].
+Proof. cbv [gen_bn254fr_sum_of_products_3 gen_bn254fr_modulus sop_interleaved_ab sop_row_ab sop_red fold_left seq nth mac_row length zeros repeat app Nat.add subtract_modulus subtract_modulus_with_carry is_geq_modulus sub_with_borrow sub_chain add_with_carry add_chain fst snd negb orb andb]. gen_lits gen_bn254fr_modulus. crush0. Qed.
+Lemma gen_bn254fr_sum_of_products_3_spec a0l0 a0l1 a0l2 a0l3 a1l0 a1l1 a1l2 a1l3 a2l0 a2l1 a2l2 a2l3 b0l0 b0l1 b0l2 b0l3 b1l0 b1l1 b1l2 b1l3 b2l0 b2l1 b2l2 b2l3 :
+  let ab := [([a0l0; a0l1; a0l2; a0l3], [b0l0; b0l1; b0l2; b0l3]); ([a1l0; a1l1; a1l2; a1l3], [b1l0; b1l1; b1l2; b1l3]); ([a2l0; a2l1; a2l2; a2l3], [b2l0; b2l1; b2l2; b2l3])] in
+  Forall (okpair gen_bn254fr_modulus) ab ->
+  let r := gen_bn254fr_sum_of_products_3 (inv_of gen_bn254fr_modulus) a0l0 a0l1 a0l2 a0l3 a1l0 a1l1 a1l2 a1l3 a2l0 a2l1 a2l2 a2l3 b0l0 b0l1 b0l2 b0l3 b1l0 b1l1 b1l2 b1l3 b2l0 b2l1 b2l2 b2l3 in
+  r = sum_of_products true gen_bn254fr_modulus ab /\ elem_ok gen_bn254fr_modulus r /\ std gen_bn254fr_modulus r = dot gen_bn254fr_modulus ab 0 mod gen_bn254fr_modulus_attr.
+Proof. intros ab Hab. cbv zeta. rewrite gen_bn254fr_sum_of_products_3_eq. fold ab. rewrite <- (gen_bn254fr_sop_branch ab) by (cbv [ab length]; lia). split; [reflexivity|]. rewrite <- (proj1 gen_bn254fr_modulus_val). exact (sum_of_products_spec true gen_bn254fr_modulus ab gen_bn254fr_modulus_wf gen_bn254fr_modulus_odd Hab). Qed.
+Lemma gen_bls381fq_sop_branch ab :
+  (length ab <= 5)%nat -> sum_of_products true gen_bls381fq_modulus ab = sop_interleaved_ab gen_bls381fq_modulus ab.
+Proof. intros H. unfold sum_of_products. replace (const_num_bits gen_bls381fq_modulus) with 381 by (vm_compute; reflexivity). change (64 * Z.of_nat (length gen_bls381fq_modulus) - 1 <=? 381) with false. cbv iota. change (Z.to_nat (2 * (Z.of_nat (length gen_bls381fq_modulus) * 64 - 381) - 1)) with 5%nat. destruct (Nat.leb_spec (length ab) 5); [reflexivity | lia]. Qed.
+Lemma gen_bls381fq_sum_of_products_1_eq a0l0 a0l1 a0l2 a0l3 a0l4 a0l5 b0l0 b0l1 b0l2 b0l3 b0l4 b0l5 :
+  gen_bls381fq_sum_of_products_1 (inv_of gen_bls381fq_modulus) a0l0 a0l1 a0l2 a0l3 a0l4 a0l5 b0l0 b0l1 b0l2 b0l3 b0l4 b0l5 = sop_interleaved_ab gen_bls381fq_modulus
+    [([a0l0; a0l1; a0l2; a0l3; a0l4; a0l5], [b0l0; b0l1; b0l2; b0l3; b0l4; b0l5])].
+Proof. cbv [gen_bls381fq_sum_of_products_1 gen_bls381fq_modulus sop_interleaved_ab sop_row_ab sop_red fold_left seq nth mac_row length zeros repeat app Nat.add subtract_modulus subtract_modulus_with_carry is_geq_modulus sub_with_borrow sub_chain add_with_carry add_chain fst snd negb orb andb]. gen_lits gen_bls381fq_modulus. crush0. Qed.
+Lemma gen_bls381fq_sum_of_products_1_spec a0l0 a0l1 a0l2 a0l3 a0l4 a0l5 b0l0 b0l1 b0l2 b0l3 b0l4 b0l5 :
+  let ab := [([a0l0; a0l1; a0l2; a0l3; a0l4; a0l5], [b0l0; b0l1; b0l2; b0l3; b0l4; b0l5])] in
+  Forall (okpair gen_bls381fq_modulus) ab ->
+  let r := gen_bls381fq_sum_of_products_1 (inv_of gen_bls381fq_modulus) a0l0 a0l1 a0l2 a0l3 a0l4 a0l5 b0l0 b0l1 b0l2 b0l3 b0l4 b0l5 in
+  r = sum_of_products true gen_bls381fq_modulus ab /\ elem_ok gen_bls381fq_modulus r /\ std gen_bls381fq_modulus r = dot gen_bls381fq_modulus ab 0 mod gen_bls381fq_modulus_attr.
+Proof. intros ab Hab. cbv zeta. rewrite gen_bls381fq_sum_of_products_1_eq. fold ab. rewrite <- (gen_bls381fq_sop_branch ab) by (cbv [ab length]; lia). split; [reflexivity|]. rewrite <- (proj1 gen_bls381fq_modulus_val). exact (sum_of_products_spec true gen_bls381fq_modulus ab gen_bls381fq_modulus_wf gen_bls381fq_modulus_odd Hab). Qed.
+
+(* ================= GenShift: BigInt shifts by concrete amounts ================= *)
+(* muln / divn / <<= / >>= / << / >> of ff/src/biginteger/mod.rs, translated for concrete (N, amount) (the `while n >= 64`
+   loop is concrete then); each generated definition is the C15 model `shl` / `shr` at that amount BY COMPUTATION
+   (the limb values stay variables; only the closed arithmetic on the amount and on the shifted-in zero limbs is
+   evaluated by the conversion check). *)
+Ltac use_eqs E :=
+  lazymatch type of E with
+  | _ /\ _ => let H := fresh in let E' := fresh in destruct E as [H E']; try rewrite H; use_eqs E'
+  | _ => try rewrite E
+  end.
+Ltac shift_close Ha :=
+  match goal with
+  | |- wf (shl ?A ?k) => exact (proj1 (shl_spec A k Ha ltac:(lia)))
+  | |- val (shl ?A ?k) = _ => exact (proj2 (proj2 (shl_spec A k Ha ltac:(lia))))
+  | |- wf (shr ?A ?k) => exact (proj1 (shr_spec A k Ha ltac:(lia)))
+  | |- val (shr ?A ?k) = _ => exact (proj2 (proj2 (shr_spec A k Ha ltac:(lia))))
+  end.
+Lemma gen_muln_1_eq a0 :
+  gen_muln_1_0 a0 = shl [a0] 0 /\
+  gen_muln_1_1 a0 = shl [a0] 1 /\
+  gen_muln_1_63 a0 = shl [a0] 63 /\
+  gen_muln_1_64 a0 = shl [a0] 64 /\
+  gen_muln_1_65 a0 = shl [a0] 65 /\
+  gen_muln_1_127 a0 = shl [a0] 127 /\
+  gen_muln_1_128 a0 = shl [a0] 128.
+Proof. repeat split; reflexivity. Qed.
+Lemma gen_muln_1_spec a0 :
+  wf [a0] ->
+  (wf (gen_muln_1_0 a0) /\ val (gen_muln_1_0 a0) = (val [a0] * 2 ^ 0) mod Wn 1) /\
+  (wf (gen_muln_1_1 a0) /\ val (gen_muln_1_1 a0) = (val [a0] * 2 ^ 1) mod Wn 1) /\
+  (wf (gen_muln_1_63 a0) /\ val (gen_muln_1_63 a0) = (val [a0] * 2 ^ 63) mod Wn 1) /\
+  (wf (gen_muln_1_64 a0) /\ val (gen_muln_1_64 a0) = (val [a0] * 2 ^ 64) mod Wn 1) /\
+  (wf (gen_muln_1_65 a0) /\ val (gen_muln_1_65 a0) = (val [a0] * 2 ^ 65) mod Wn 1) /\
+  (wf (gen_muln_1_127 a0) /\ val (gen_muln_1_127 a0) = (val [a0] * 2 ^ 127) mod Wn 1) /\
+  (wf (gen_muln_1_128 a0) /\ val (gen_muln_1_128 a0) = (val [a0] * 2 ^ 128) mod Wn 1).
+Proof. intros Ha. repeat split; (pose proof (gen_muln_1_eq a0) as E; use_eqs E); shift_close Ha. Qed.
+Lemma gen_muln_2_eq a0 a1 :
+  gen_muln_2_0 a0 a1 = shl [a0; a1] 0 /\
+  gen_muln_2_1 a0 a1 = shl [a0; a1] 1 /\
+  gen_muln_2_63 a0 a1 = shl [a0; a1] 63 /\
+  gen_muln_2_64 a0 a1 = shl [a0; a1] 64 /\
+  gen_muln_2_65 a0 a1 = shl [a0; a1] 65 /\
+  gen_muln_2_127 a0 a1 = shl [a0; a1] 127 /\
+  gen_muln_2_128 a0 a1 = shl [a0; a1] 128 /\
+  gen_muln_2_129 a0 a1 = shl [a0; a1] 129.
+Proof. repeat split; reflexivity. Qed.
+Lemma gen_muln_2_spec a0 a1 :
+  wf [a0; a1] ->
+  (wf (gen_muln_2_0 a0 a1) /\ val (gen_muln_2_0 a0 a1) = (val [a0; a1] * 2 ^ 0) mod Wn 2) /\
+  (wf (gen_muln_2_1 a0 a1) /\ val (gen_muln_2_1 a0 a1) = (val [a0; a1] * 2 ^ 1) mod Wn 2) /\
+  (wf (gen_muln_2_63 a0 a1) /\ val (gen_muln_2_63 a0 a1) = (val [a0; a1] * 2 ^ 63) mod Wn 2) /\
+  (wf (gen_muln_2_64 a0 a1) /\ val (gen_muln_2_64 a0 a1) = (val [a0; a1] * 2 ^ 64) mod Wn 2) /\
+  (wf (gen_muln_2_65 a0 a1) /\ val (gen_muln_2_65 a0 a1) = (val [a0; a1] * 2 ^ 65) mod Wn 2) /\
+  (wf (gen_muln_2_127 a0 a1) /\ val (gen_muln_2_127 a0 a1) = (val [a0; a1] * 2 ^ 127) mod Wn 2) /\
+  (wf (gen_muln_2_128 a0 a1) /\ val (gen_muln_2_128 a0 a1) = (val [a0; a1] * 2 ^ 128) mod Wn 2) /\
+  (wf (gen_muln_2_129 a0 a1) /\ val (gen_muln_2_129 a0 a1) = (val [a0; a1] * 2 ^ 129) mod Wn 2).
+Proof. intros Ha. repeat split; (pose proof (gen_muln_2_eq a0 a1) as E; use_eqs E); shift_close Ha. Qed.
+Lemma gen_muln_3_eq a0 a1 a2 :
+  gen_muln_3_0 a0 a1 a2 = shl [a0; a1; a2] 0 /\
+  gen_muln_3_1 a0 a1 a2 = shl [a0; a1; a2] 1 /\
+  gen_muln_3_63 a0 a1 a2 = shl [a0; a1; a2] 63 /\
+  gen_muln_3_64 a0 a1 a2 = shl [a0; a1; a2] 64 /\
+  gen_muln_3_65 a0 a1 a2 = shl [a0; a1; a2] 65 /\
+  gen_muln_3_127 a0 a1 a2 = shl [a0; a1; a2] 127 /\
+  gen_muln_3_128 a0 a1 a2 = shl [a0; a1; a2] 128 /\
+  gen_muln_3_191 a0 a1 a2 = shl [a0; a1; a2] 191 /\
+  gen_muln_3_192 a0 a1 a2 = shl [a0; a1; a2] 192 /\
+  gen_muln_3_193 a0 a1 a2 = shl [a0; a1; a2] 193.
+Proof. repeat split; reflexivity. Qed.
+Lemma gen_muln_3_spec a0 a1 a2 :
+  wf [a0; a1; a2] ->
+  (wf (gen_muln_3_0 a0 a1 a2) /\ val (gen_muln_3_0 a0 a1 a2) = (val [a0; a1; a2] * 2 ^ 0) mod Wn 3) /\
+  (wf (gen_muln_3_1 a0 a1 a2) /\ val (gen_muln_3_1 a0 a1 a2) = (val [a0; a1; a2] * 2 ^ 1) mod Wn 3) /\
+  (wf (gen_muln_3_63 a0 a1 a2) /\ val (gen_muln_3_63 a0 a1 a2) = (val [a0; a1; a2] * 2 ^ 63) mod Wn 3) /\
+  (wf (gen_muln_3_64 a0 a1 a2) /\ val (gen_muln_3_64 a0 a1 a2) = (val [a0; a1; a2] * 2 ^ 64) mod Wn 3) /\
+  (wf (gen_muln_3_65 a0 a1 a2) /\ val (gen_muln_3_65 a0 a1 a2) = (val [a0; a1; a2] * 2 ^ 65) mod Wn 3) /\
+  (wf (gen_muln_3_127 a0 a1 a2) /\ val (gen_muln_3_127 a0 a1 a2) = (val [a0; a1; a2] * 2 ^ 127) mod Wn 3) /\
+  (wf (gen_muln_3_128 a0 a1 a2) /\ val (gen_muln_3_128 a0 a1 a2) = (val [a0; a1; a2] * 2 ^ 128) mod Wn 3) /\
+  (wf (gen_muln_3_191 a0 a1 a2) /\ val (gen_muln_3_191 a0 a1 a2) = (val [a0; a1; a2] * 2 ^ 191) mod Wn 3) /\
+  (wf (gen_muln_3_192 a0 a1 a2) /\ val (gen_muln_3_192 a0 a1 a2) = (val [a0; a1; a2] * 2 ^ 192) mod Wn 3) /\
+  (wf (gen_muln_3_193 a0 a1 a2) /\ val (gen_muln_3_193 a0 a1 a2) = (val [a0; a1; a2] * 2 ^ 193) mod Wn 3).
+Proof. intros Ha. repeat split; (pose proof (gen_muln_3_eq a0 a1 a2) as E; use_eqs E); shift_close Ha. Qed.
+Lemma gen_muln_4_eq a0 a1 a2 a3 :
+  gen_muln_4_0 a0 a1 a2 a3 = shl [a0; a1; a2; a3] 0 /\
+  gen_muln_4_1 a0 a1 a2 a3 = shl [a0; a1; a2; a3] 1 /\
+  gen_muln_4_63 a0 a1 a2 a3 = shl [a0; a1; a2; a3] 63 /\
+  gen_muln_4_64 a0 a1 a2 a3 = shl [a0; a1; a2; a3] 64 /\
+  gen_muln_4_65 a0 a1 a2 a3 = shl [a0; a1; a2; a3] 65 /\
+  gen_muln_4_127 a0 a1 a2 a3 = shl [a0; a1; a2; a3] 127 /\
+  gen_muln_4_128 a0 a1 a2 a3 = shl [a0; a1; a2; a3] 128 /\
+  gen_muln_4_255 a0 a1 a2 a3 = shl [a0; a1; a2; a3] 255 /\
+  gen_muln_4_256 a0 a1 a2 a3 = shl [a0; a1; a2; a3] 256 /\
+  gen_muln_4_257 a0 a1 a2 a3 = shl [a0; a1; a2; a3] 257.
+Proof. repeat split; reflexivity. Qed.
+Lemma gen_muln_4_spec a0 a1 a2 a3 :
+  wf [a0; a1; a2; a3] ->
+  (wf (gen_muln_4_0 a0 a1 a2 a3) /\ val (gen_muln_4_0 a0 a1 a2 a3) = (val [a0; a1; a2; a3] * 2 ^ 0) mod Wn 4) /\
+  (wf (gen_muln_4_1 a0 a1 a2 a3) /\ val (gen_muln_4_1 a0 a1 a2 a3) = (val [a0; a1; a2; a3] * 2 ^ 1) mod Wn 4) /\
+  (wf (gen_muln_4_63 a0 a1 a2 a3) /\ val (gen_muln_4_63 a0 a1 a2 a3) = (val [a0; a1; a2; a3] * 2 ^ 63) mod Wn 4) /\
+  (wf (gen_muln_4_64 a0 a1 a2 a3) /\ val (gen_muln_4_64 a0 a1 a2 a3) = (val [a0; a1; a2; a3] * 2 ^ 64) mod Wn 4) /\
+  (wf (gen_muln_4_65 a0 a1 a2 a3) /\ val (gen_muln_4_65 a0 a1 a2 a3) = (val [a0; a1; a2; a3] * 2 ^ 65) mod Wn 4) /\
+  (wf (gen_muln_4_127 a0 a1 a2 a3) /\ val (gen_muln_4_127 a0 a1 a2 a3) = (val [a0; a1; a2; a3] * 2 ^ 127) mod Wn 4) /\
+  (wf (gen_muln_4_128 a0 a1 a2 a3) /\ val (gen_muln_4_128 a0 a1 a2 a3) = (val [a0; a1; a2; a3] * 2 ^ 128) mod Wn 4) /\
+  (wf (gen_muln_4_255 a0 a1 a2 a3) /\ val (gen_muln_4_255 a0 a1 a2 a3) = (val [a0; a1; a2; a3] * 2 ^ 255) mod Wn 4) /\
+  (wf (gen_muln_4_256 a0 a1 a2 a3) /\ val (gen_muln_4_256 a0 a1 a2 a3) = (val [a0; a1; a2; a3] * 2 ^ 256) mod Wn 4) /\
+  (wf (gen_muln_4_257 a0 a1 a2 a3) /\ val (gen_muln_4_257 a0 a1 a2 a3) = (val [a0; a1; a2; a3] * 2 ^ 257) mod Wn 4).
+Proof. intros Ha. repeat split; (pose proof (gen_muln_4_eq a0 a1 a2 a3) as E; use_eqs E); shift_close Ha. Qed.
+Lemma gen_divn_1_eq a0 :
+  gen_divn_1_0 a0 = shr [a0] 0 /\
+  gen_divn_1_1 a0 = shr [a0] 1 /\
+  gen_divn_1_63 a0 = shr [a0] 63 /\
+  gen_divn_1_64 a0 = shr [a0] 64 /\
+  gen_divn_1_65 a0 = shr [a0] 65 /\
+  gen_divn_1_127 a0 = shr [a0] 127 /\
+  gen_divn_1_128 a0 = shr [a0] 128.
+Proof. repeat split; reflexivity. Qed.
+Lemma gen_divn_1_spec a0 :
+  wf [a0] ->
+  (wf (gen_divn_1_0 a0) /\ val (gen_divn_1_0 a0) = val [a0] / 2 ^ 0) /\
+  (wf (gen_divn_1_1 a0) /\ val (gen_divn_1_1 a0) = val [a0] / 2 ^ 1) /\
+  (wf (gen_divn_1_63 a0) /\ val (gen_divn_1_63 a0) = val [a0] / 2 ^ 63) /\
+  (wf (gen_divn_1_64 a0) /\ val (gen_divn_1_64 a0) = val [a0] / 2 ^ 64) /\
+  (wf (gen_divn_1_65 a0) /\ val (gen_divn_1_65 a0) = val [a0] / 2 ^ 65) /\
+  (wf (gen_divn_1_127 a0) /\ val (gen_divn_1_127 a0) = val [a0] / 2 ^ 127) /\
+  (wf (gen_divn_1_128 a0) /\ val (gen_divn_1_128 a0) = val [a0] / 2 ^ 128).
+Proof. intros Ha. repeat split; (pose proof (gen_divn_1_eq a0) as E; use_eqs E); shift_close Ha. Qed.
+Lemma gen_divn_2_eq a0 a1 :
+  gen_divn_2_0 a0 a1 = shr [a0; a1] 0 /\
+  gen_divn_2_1 a0 a1 = shr [a0; a1] 1 /\
+  gen_divn_2_63 a0 a1 = shr [a0; a1] 63 /\
+  gen_divn_2_64 a0 a1 = shr [a0; a1] 64 /\
+  gen_divn_2_65 a0 a1 = shr [a0; a1] 65 /\
+  gen_divn_2_127 a0 a1 = shr [a0; a1] 127 /\
+  gen_divn_2_128 a0 a1 = shr [a0; a1] 128 /\
+  gen_divn_2_129 a0 a1 = shr [a0; a1] 129.
+Proof. repeat split; reflexivity. Qed.
+Lemma gen_divn_2_spec a0 a1 :
+  wf [a0; a1] ->
+  (wf (gen_divn_2_0 a0 a1) /\ val (gen_divn_2_0 a0 a1) = val [a0; a1] / 2 ^ 0) /\
+  (wf (gen_divn_2_1 a0 a1) /\ val (gen_divn_2_1 a0 a1) = val [a0; a1] / 2 ^ 1) /\
+  (wf (gen_divn_2_63 a0 a1) /\ val (gen_divn_2_63 a0 a1) = val [a0; a1] / 2 ^ 63) /\
+  (wf (gen_divn_2_64 a0 a1) /\ val (gen_divn_2_64 a0 a1) = val [a0; a1] / 2 ^ 64) /\
+  (wf (gen_divn_2_65 a0 a1) /\ val (gen_divn_2_65 a0 a1) = val [a0; a1] / 2 ^ 65) /\
+  (wf (gen_divn_2_127 a0 a1) /\ val (gen_divn_2_127 a0 a1) = val [a0; a1] / 2 ^ 127) /\
+  (wf (gen_divn_2_128 a0 a1) /\ val (gen_divn_2_128 a0 a1) = val [a0; a1] / 2 ^ 128) /\
+  (wf (gen_divn_2_129 a0 a1) /\ val (gen_divn_2_129 a0 a1) = val [a0; a1] / 2 ^ 129).
+Proof. intros Ha. repeat split; (pose proof (gen_divn_2_eq a0 a1) as E; use_eqs E); shift_close Ha. Qed.
+Lemma gen_divn_3_eq a0 a1 a2 :
+  gen_divn_3_0 a0 a1 a2 = shr [a0; a1; a2] 0 /\
+  gen_divn_3_1 a0 a1 a2 = shr [a0; a1; a2] 1 /\
+  gen_divn_3_63 a0 a1 a2 = shr [a0; a1; a2] 63 /\
+  gen_divn_3_64 a0 a1 a2 = shr [a0; a1; a2] 64 /\
+  gen_divn_3_65 a0 a1 a2 = shr [a0; a1; a2] 65 /\
+  gen_divn_3_127 a0 a1 a2 = shr [a0; a1; a2] 127 /\
+  gen_divn_3_128 a0 a1 a2 = shr [a0; a1; a2] 128 /\
+  gen_divn_3_191 a0 a1 a2 = shr [a0; a1; a2] 191 /\
+  gen_divn_3_192 a0 a1 a2 = shr [a0; a1; a2] 192 /\
+  gen_divn_3_193 a0 a1 a2 = shr [a0; a1; a2] 193.
+Proof. repeat split; reflexivity. Qed.
+Lemma gen_divn_3_spec a0 a1 a2 :
+  wf [a0; a1; a2] ->
+  (wf (gen_divn_3_0 a0 a1 a2) /\ val (gen_divn_3_0 a0 a1 a2) = val [a0; a1; a2] / 2 ^ 0) /\
+  (wf (gen_divn_3_1 a0 a1 a2) /\ val (gen_divn_3_1 a0 a1 a2) = val [a0; a1; a2] / 2 ^ 1) /\
+  (wf (gen_divn_3_63 a0 a1 a2) /\ val (gen_divn_3_63 a0 a1 a2) = val [a0; a1; a2] / 2 ^ 63) /\
+  (wf (gen_divn_3_64 a0 a1 a2) /\ val (gen_divn_3_64 a0 a1 a2) = val [a0; a1; a2] / 2 ^ 64) /\
+  (wf (gen_divn_3_65 a0 a1 a2) /\ val (gen_divn_3_65 a0 a1 a2) = val [a0; a1; a2] / 2 ^ 65) /\
+  (wf (gen_divn_3_127 a0 a1 a2) /\ val (gen_divn_3_127 a0 a1 a2) = val [a0; a1; a2] / 2 ^ 127) /\
+  (wf (gen_divn_3_128 a0 a1 a2) /\ val (gen_divn_3_128 a0 a1 a2) = val [a0; a1; a2] / 2 ^ 128) /\
+  (wf (gen_divn_3_191 a0 a1 a2) /\ val (gen_divn_3_191 a0 a1 a2) = val [a0; a1; a2] / 2 ^ 191) /\
+  (wf (gen_divn_3_192 a0 a1 a2) /\ val (gen_divn_3_192 a0 a1 a2) = val [a0; a1; a2] / 2 ^ 192) /\
+  (wf (gen_divn_3_193 a0 a1 a2) /\ val (gen_divn_3_193 a0 a1 a2) = val [a0; a1; a2] / 2 ^ 193).
+Proof. intros Ha. repeat split; (pose proof (gen_divn_3_eq a0 a1 a2) as E; use_eqs E); shift_close Ha. Qed.
+Lemma gen_divn_4_eq a0 a1 a2 a3 :
+  gen_divn_4_0 a0 a1 a2 a3 = shr [a0; a1; a2; a3] 0 /\
+  gen_divn_4_1 a0 a1 a2 a3 = shr [a0; a1; a2; a3] 1 /\
+  gen_divn_4_63 a0 a1 a2 a3 = shr [a0; a1; a2; a3] 63 /\
+  gen_divn_4_64 a0 a1 a2 a3 = shr [a0; a1; a2; a3] 64 /\
+  gen_divn_4_65 a0 a1 a2 a3 = shr [a0; a1; a2; a3] 65 /\
+  gen_divn_4_127 a0 a1 a2 a3 = shr [a0; a1; a2; a3] 127 /\
+  gen_divn_4_128 a0 a1 a2 a3 = shr [a0; a1; a2; a3] 128 /\
+  gen_divn_4_255 a0 a1 a2 a3 = shr [a0; a1; a2; a3] 255 /\
+  gen_divn_4_256 a0 a1 a2 a3 = shr [a0; a1; a2; a3] 256 /\
+  gen_divn_4_257 a0 a1 a2 a3 = shr [a0; a1; a2; a3] 257.
+Proof. repeat split; reflexivity. Qed.
+Lemma gen_divn_4_spec a0 a1 a2 a3 :
+  wf [a0; a1; a2; a3] ->
+  (wf (gen_divn_4_0 a0 a1 a2 a3) /\ val (gen_divn_4_0 a0 a1 a2 a3) = val [a0; a1; a2; a3] / 2 ^ 0) /\
+  (wf (gen_divn_4_1 a0 a1 a2 a3) /\ val (gen_divn_4_1 a0 a1 a2 a3) = val [a0; a1; a2; a3] / 2 ^ 1) /\
+  (wf (gen_divn_4_63 a0 a1 a2 a3) /\ val (gen_divn_4_63 a0 a1 a2 a3) = val [a0; a1; a2; a3] / 2 ^ 63) /\
+  (wf (gen_divn_4_64 a0 a1 a2 a3) /\ val (gen_divn_4_64 a0 a1 a2 a3) = val [a0; a1; a2; a3] / 2 ^ 64) /\
+  (wf (gen_divn_4_65 a0 a1 a2 a3) /\ val (gen_divn_4_65 a0 a1 a2 a3) = val [a0; a1; a2; a3] / 2 ^ 65) /\
+  (wf (gen_divn_4_127 a0 a1 a2 a3) /\ val (gen_divn_4_127 a0 a1 a2 a3) = val [a0; a1; a2; a3] / 2 ^ 127) /\
+  (wf (gen_divn_4_128 a0 a1 a2 a3) /\ val (gen_divn_4_128 a0 a1 a2 a3) = val [a0; a1; a2; a3] / 2 ^ 128) /\
+  (wf (gen_divn_4_255 a0 a1 a2 a3) /\ val (gen_divn_4_255 a0 a1 a2 a3) = val [a0; a1; a2; a3] / 2 ^ 255) /\
+  (wf (gen_divn_4_256 a0 a1 a2 a3) /\ val (gen_divn_4_256 a0 a1 a2 a3) = val [a0; a1; a2; a3] / 2 ^ 256) /\
+  (wf (gen_divn_4_257 a0 a1 a2 a3) /\ val (gen_divn_4_257 a0 a1 a2 a3) = val [a0; a1; a2; a3] / 2 ^ 257).
+Proof. intros Ha. repeat split; (pose proof (gen_divn_4_eq a0 a1 a2 a3) as E; use_eqs E); shift_close Ha. Qed.
+Lemma gen_shl_assign_1_eq a0 :
+  gen_shl_assign_1_0 a0 = shl [a0] 0 /\
+  gen_shl_assign_1_1 a0 = shl [a0] 1 /\
+  gen_shl_assign_1_63 a0 = shl [a0] 63 /\
+  gen_shl_assign_1_64 a0 = shl [a0] 64 /\
+  gen_shl_assign_1_65 a0 = shl [a0] 65 /\
+  gen_shl_assign_1_127 a0 = shl [a0] 127 /\
+  gen_shl_assign_1_128 a0 = shl [a0] 128.
+Proof. repeat split; reflexivity. Qed.
+Lemma gen_shl_assign_1_spec a0 :
+  wf [a0] ->
+  (wf (gen_shl_assign_1_0 a0) /\ val (gen_shl_assign_1_0 a0) = (val [a0] * 2 ^ 0) mod Wn 1) /\
+  (wf (gen_shl_assign_1_1 a0) /\ val (gen_shl_assign_1_1 a0) = (val [a0] * 2 ^ 1) mod Wn 1) /\
+  (wf (gen_shl_assign_1_63 a0) /\ val (gen_shl_assign_1_63 a0) = (val [a0] * 2 ^ 63) mod Wn 1) /\
+  (wf (gen_shl_assign_1_64 a0) /\ val (gen_shl_assign_1_64 a0) = (val [a0] * 2 ^ 64) mod Wn 1) /\
+  (wf (gen_shl_assign_1_65 a0) /\ val (gen_shl_assign_1_65 a0) = (val [a0] * 2 ^ 65) mod Wn 1) /\
+  (wf (gen_shl_assign_1_127 a0) /\ val (gen_shl_assign_1_127 a0) = (val [a0] * 2 ^ 127) mod Wn 1) /\
+  (wf (gen_shl_assign_1_128 a0) /\ val (gen_shl_assign_1_128 a0) = (val [a0] * 2 ^ 128) mod Wn 1).
+Proof. intros Ha. repeat split; (pose proof (gen_shl_assign_1_eq a0) as E; use_eqs E); shift_close Ha. Qed.
+Lemma gen_shl_assign_2_eq a0 a1 :
+  gen_shl_assign_2_0 a0 a1 = shl [a0; a1] 0 /\
+  gen_shl_assign_2_1 a0 a1 = shl [a0; a1] 1 /\
+  gen_shl_assign_2_63 a0 a1 = shl [a0; a1] 63 /\
+  gen_shl_assign_2_64 a0 a1 = shl [a0; a1] 64 /\
+  gen_shl_assign_2_65 a0 a1 = shl [a0; a1] 65 /\
+  gen_shl_assign_2_127 a0 a1 = shl [a0; a1] 127 /\
+  gen_shl_assign_2_128 a0 a1 = shl [a0; a1] 128 /\
+  gen_shl_assign_2_129 a0 a1 = shl [a0; a1] 129.
+Proof. repeat split; reflexivity. Qed.
+Lemma gen_shl_assign_2_spec a0 a1 :
+  wf [a0; a1] ->
+  (wf (gen_shl_assign_2_0 a0 a1) /\ val (gen_shl_assign_2_0 a0 a1) = (val [a0; a1] * 2 ^ 0) mod Wn 2) /\
+  (wf (gen_shl_assign_2_1 a0 a1) /\ val (gen_shl_assign_2_1 a0 a1) = (val [a0; a1] * 2 ^ 1) mod Wn 2) /\
+  (wf (gen_shl_assign_2_63 a0 a1) /\ val (gen_shl_assign_2_63 a0 a1) = (val [a0; a1] * 2 ^ 63) mod Wn 2) /\
+  (wf (gen_shl_assign_2_64 a0 a1) /\ val (gen_shl_assign_2_64 a0 a1) = (val [a0; a1] * 2 ^ 64) mod Wn 2) /\
+  (wf (gen_shl_assign_2_65 a0 a1) /\ val (gen_shl_assign_2_65 a0 a1) = (val [a0; a1] * 2 ^ 65) mod Wn 2) /\
+  (wf (gen_shl_assign_2_127 a0 a1) /\ val (gen_shl_assign_2_127 a0 a1) = (val [a0; a1] * 2 ^ 127) mod Wn 2) /\
+  (wf (gen_shl_assign_2_128 a0 a1) /\ val (gen_shl_assign_2_128 a0 a1) = (val [a0; a1] * 2 ^ 128) mod Wn 2) /\
+  (wf (gen_shl_assign_2_129 a0 a1) /\ val (gen_shl_assign_2_129 a0 a1) = (val [a0; a1] * 2 ^ 129) mod Wn 2).
+Proof. intros Ha. repeat split; (pose proof (gen_shl_assign_2_eq a0 a1) as E; use_eqs E); shift_close Ha. Qed.
+Lemma gen_shl_assign_3_eq a0 a1 a2 :
+  gen_shl_assign_3_0 a0 a1 a2 = shl [a0; a1; a2] 0 /\
+  gen_shl_assign_3_1 a0 a1 a2 = shl [a0; a1; a2] 1 /\
+  gen_shl_assign_3_63 a0 a1 a2 = shl [a0; a1; a2] 63 /\
+  gen_shl_assign_3_64 a0 a1 a2 = shl [a0; a1; a2] 64 /\
+  gen_shl_assign_3_65 a0 a1 a2 = shl [a0; a1; a2] 65 /\
+  gen_shl_assign_3_127 a0 a1 a2 = shl [a0; a1; a2] 127 /\
+  gen_shl_assign_3_128 a0 a1 a2 = shl [a0; a1; a2] 128 /\
+  gen_shl_assign_3_191 a0 a1 a2 = shl [a0; a1; a2] 191 /\
+  gen_shl_assign_3_192 a0 a1 a2 = shl [a0; a1; a2] 192 /\
+  gen_shl_assign_3_193 a0 a1 a2 = shl [a0; a1; a2] 193.
+Proof. repeat split; reflexivity. Qed.
+Lemma gen_shl_assign_3_spec a0 a1 a2 :
+  wf [a0; a1; a2] ->
+  (wf (gen_shl_assign_3_0 a0 a1 a2) /\ val (gen_shl_assign_3_0 a0 a1 a2) = (val [a0; a1; a2] * 2 ^ 0) mod Wn 3) /\
+  (wf (gen_shl_assign_3_1 a0 a1 a2) /\ val (gen_shl_assign_3_1 a0 a1 a2) = (val [a0; a1; a2] * 2 ^ 1) mod Wn 3) /\
+  (wf (gen_shl_assign_3_63 a0 a1 a2) /\ val (gen_shl_assign_3_63 a0 a1 a2) = (val [a0; a1; a2] * 2 ^ 63) mod Wn 3) /\
+  (wf (gen_shl_assign_3_64 a0 a1 a2) /\ val (gen_shl_assign_3_64 a0 a1 a2) = (val [a0; a1; a2] * 2 ^ 64) mod Wn 3) /\
+  (wf (gen_shl_assign_3_65 a0 a1 a2) /\ val (gen_shl_assign_3_65 a0 a1 a2) = (val [a0; a1; a2] * 2 ^ 65) mod Wn 3) /\
+  (wf (gen_shl_assign_3_127 a0 a1 a2) /\ val (gen_shl_assign_3_127 a0 a1 a2) = (val [a0; a1; a2] * 2 ^ 127) mod Wn 3) /\
+  (wf (gen_shl_assign_3_128 a0 a1 a2) /\ val (gen_shl_assign_3_128 a0 a1 a2) = (val [a0; a1; a2] * 2 ^ 128) mod Wn 3) /\
+  (wf (gen_shl_assign_3_191 a0 a1 a2) /\ val (gen_shl_assign_3_191 a0 a1 a2) = (val [a0; a1; a2] * 2 ^ 191) mod Wn 3) /\
+  (wf (gen_shl_assign_3_192 a0 a1 a2) /\ val (gen_shl_assign_3_192 a0 a1 a2) = (val [a0; a1; a2] * 2 ^ 192) mod Wn 3) /\
+  (wf (gen_shl_assign_3_193 a0 a1 a2) /\ val (gen_shl_assign_3_193 a0 a1 a2) = (val [a0; a1; a2] * 2 ^ 193) mod Wn 3).
+Proof. intros Ha. repeat split; (pose proof (gen_shl_assign_3_eq a0 a1 a2) as E; use_eqs E); shift_close Ha. Qed.
+Lemma gen_shl_assign_4_eq a0 a1 a2 a3 :
+  gen_shl_assign_4_0 a0 a1 a2 a3 = shl [a0; a1; a2; a3] 0 /\
+  gen_shl_assign_4_1 a0 a1 a2 a3 = shl [a0; a1; a2; a3] 1 /\
+  gen_shl_assign_4_63 a0 a1 a2 a3 = shl [a0; a1; a2; a3] 63 /\
+  gen_shl_assign_4_64 a0 a1 a2 a3 = shl [a0; a1; a2; a3] 64 /\
+  gen_shl_assign_4_65 a0 a1 a2 a3 = shl [a0; a1; a2; a3] 65 /\
+  gen_shl_assign_4_127 a0 a1 a2 a3 = shl [a0; a1; a2; a3] 127 /\
+  gen_shl_assign_4_128 a0 a1 a2 a3 = shl [a0; a1; a2; a3] 128 /\
+  gen_shl_assign_4_255 a0 a1 a2 a3 = shl [a0; a1; a2; a3] 255 /\
+  gen_shl_assign_4_256 a0 a1 a2 a3 = shl [a0; a1; a2; a3] 256 /\
+  gen_shl_assign_4_257 a0 a1 a2 a3 = shl [a0; a1; a2; a3] 257.
+Proof. repeat split; reflexivity. Qed.
+Lemma gen_shl_assign_4_spec a0 a1 a2 a3 :
+  wf [a0; a1; a2; a3] ->
+  (wf (gen_shl_assign_4_0 a0 a1 a2 a3) /\ val (gen_shl_assign_4_0 a0 a1 a2 a3) = (val [a0; a1; a2; a3] * 2 ^ 0) mod Wn 4) /\
+  (wf (gen_shl_assign_4_1 a0 a1 a2 a3) /\ val (gen_shl_assign_4_1 a0 a1 a2 a3) = (val [a0; a1; a2; a3] * 2 ^ 1) mod Wn 4) /\
+  (wf (gen_shl_assign_4_63 a0 a1 a2 a3) /\ val (gen_shl_assign_4_63 a0 a1 a2 a3) = (val [a0; a1; a2; a3] * 2 ^ 63) mod Wn 4) /\
+  (wf (gen_shl_assign_4_64 a0 a1 a2 a3) /\ val (gen_shl_assign_4_64 a0 a1 a2 a3) = (val [a0; a1; a2; a3] * 2 ^ 64) mod Wn 4) /\
+  (wf (gen_shl_assign_4_65 a0 a1 a2 a3) /\ val (gen_shl_assign_4_65 a0 a1 a2 a3) = (val [a0; a1; a2; a3] * 2 ^ 65) mod Wn 4) /\
+  (wf (gen_shl_assign_4_127 a0 a1 a2 a3) /\ val (gen_shl_assign_4_127 a0 a1 a2 a3) = (val [a0; a1; a2; a3] * 2 ^ 127) mod Wn 4) /\
+  (wf (gen_shl_assign_4_128 a0 a1 a2 a3) /\ val (gen_shl_assign_4_128 a0 a1 a2 a3) = (val [a0; a1; a2; a3] * 2 ^ 128) mod Wn 4) /\
+  (wf (gen_shl_assign_4_255 a0 a1 a2 a3) /\ val (gen_shl_assign_4_255 a0 a1 a2 a3) = (val [a0; a1; a2; a3] * 2 ^ 255) mod Wn 4) /\
+  (wf (gen_shl_assign_4_256 a0 a1 a2 a3) /\ val (gen_shl_assign_4_256 a0 a1 a2 a3) = (val [a0; a1; a2; a3] * 2 ^ 256) mod Wn 4) /\
+  (wf (gen_shl_assign_4_257 a0 a1 a2 a3) /\ val (gen_shl_assign_4_257 a0 a1 a2 a3) = (val [a0; a1; a2; a3] * 2 ^ 257) mod Wn 4).
+Proof. intros Ha. repeat split; (pose proof (gen_shl_assign_4_eq a0 a1 a2 a3) as E; use_eqs E); shift_close Ha. Qed.
+Lemma gen_shr_assign_1_eq a0 :
+  gen_shr_assign_1_0 a0 = shr [a0] 0 /\
+  gen_shr_assign_1_1 a0 = shr [a0] 1 /\
+  gen_shr_assign_1_63 a0 = shr [a0] 63 /\
+  gen_shr_assign_1_64 a0 = shr [a0] 64 /\
+  gen_shr_assign_1_65 a0 = shr [a0] 65 /\
+  gen_shr_assign_1_127 a0 = shr [a0] 127 /\
+  gen_shr_assign_1_128 a0 = shr [a0] 128.
+Proof. repeat split; reflexivity. Qed.
+Lemma gen_shr_assign_1_spec a0 :
+  wf [a0] ->
+  (wf (gen_shr_assign_1_0 a0) /\ val (gen_shr_assign_1_0 a0) = val [a0] / 2 ^ 0) /\
+  (wf (gen_shr_assign_1_1 a0) /\ val (gen_shr_assign_1_1 a0) = val [a0] / 2 ^ 1) /\
+  (wf (gen_shr_assign_1_63 a0) /\ val (gen_shr_assign_1_63 a0) = val [a0] / 2 ^ 63) /\
+  (wf (gen_shr_assign_1_64 a0) /\ val (gen_shr_assign_1_64 a0) = val [a0] / 2 ^ 64) /\
+  (wf (gen_shr_assign_1_65 a0) /\ val (gen_shr_assign_1_65 a0) = val [a0] / 2 ^ 65) /\
+  (wf (gen_shr_assign_1_127 a0) /\ val (gen_shr_assign_1_127 a0) = val [a0] / 2 ^ 127) /\
+  (wf (gen_shr_assign_1_128 a0) /\ val (gen_shr_assign_1_128 a0) = val [a0] / 2 ^ 128).
+Proof. intros Ha. repeat split; (pose proof (gen_shr_assign_1_eq a0) as E; use_eqs E); shift_close Ha. Qed.
+Lemma gen_shr_assign_2_eq a0 a1 :
+  gen_shr_assign_2_0 a0 a1 = shr [a0; a1] 0 /\
+  gen_shr_assign_2_1 a0 a1 = shr [a0; a1] 1 /\
+  gen_shr_assign_2_63 a0 a1 = shr [a0; a1] 63 /\
+  gen_shr_assign_2_64 a0 a1 = shr [a0; a1] 64 /\
+  gen_shr_assign_2_65 a0 a1 = shr [a0; a1] 65 /\
+  gen_shr_assign_2_127 a0 a1 = shr [a0; a1] 127 /\
+  gen_shr_assign_2_128 a0 a1 = shr [a0; a1] 128 /\
+  gen_shr_assign_2_129 a0 a1 = shr [a0; a1] 129.
+Proof. repeat split; reflexivity. Qed.
+Lemma gen_shr_assign_2_spec a0 a1 :
+  wf [a0; a1] ->
+  (wf (gen_shr_assign_2_0 a0 a1) /\ val (gen_shr_assign_2_0 a0 a1) = val [a0; a1] / 2 ^ 0) /\
+  (wf (gen_shr_assign_2_1 a0 a1) /\ val (gen_shr_assign_2_1 a0 a1) = val [a0; a1] / 2 ^ 1) /\
+  (wf (gen_shr_assign_2_63 a0 a1) /\ val (gen_shr_assign_2_63 a0 a1) = val [a0; a1] / 2 ^ 63) /\
+  (wf (gen_shr_assign_2_64 a0 a1) /\ val (gen_shr_assign_2_64 a0 a1) = val [a0; a1] / 2 ^ 64) /\
+  (wf (gen_shr_assign_2_65 a0 a1) /\ val (gen_shr_assign_2_65 a0 a1) = val [a0; a1] / 2 ^ 65) /\
+  (wf (gen_shr_assign_2_127 a0 a1) /\ val (gen_shr_assign_2_127 a0 a1) = val [a0; a1] / 2 ^ 127) /\
+  (wf (gen_shr_assign_2_128 a0 a1) /\ val (gen_shr_assign_2_128 a0 a1) = val [a0; a1] / 2 ^ 128) /\
+  (wf (gen_shr_assign_2_129 a0 a1) /\ val (gen_shr_assign_2_129 a0 a1) = val [a0; a1] / 2 ^ 129).
+Proof. intros Ha. repeat split; (pose proof (gen_shr_assign_2_eq a0 a1) as E; use_eqs E); shift_close Ha. Qed.
+Lemma gen_shr_assign_3_eq a0 a1 a2 :
+  gen_shr_assign_3_0 a0 a1 a2 = shr [a0; a1; a2] 0 /\
+  gen_shr_assign_3_1 a0 a1 a2 = shr [a0; a1; a2] 1 /\
+  gen_shr_assign_3_63 a0 a1 a2 = shr [a0; a1; a2] 63 /\
+  gen_shr_assign_3_64 a0 a1 a2 = shr [a0; a1; a2] 64 /\
+  gen_shr_assign_3_65 a0 a1 a2 = shr [a0; a1; a2] 65 /\
+  gen_shr_assign_3_127 a0 a1 a2 = shr [a0; a1; a2] 127 /\
+  gen_shr_assign_3_128 a0 a1 a2 = shr [a0; a1; a2] 128 /\
+  gen_shr_assign_3_191 a0 a1 a2 = shr [a0; a1; a2] 191 /\
+  gen_shr_assign_3_192 a0 a1 a2 = shr [a0; a1; a2] 192 /\
+  gen_shr_assign_3_193 a0 a1 a2 = shr [a0; a1; a2] 193.
+Proof. repeat split; reflexivity. Qed.
+Lemma gen_shr_assign_3_spec a0 a1 a2 :
+  wf [a0; a1; a2] ->
+  (wf (gen_shr_assign_3_0 a0 a1 a2) /\ val (gen_shr_assign_3_0 a0 a1 a2) = val [a0; a1; a2] / 2 ^ 0) /\
+  (wf (gen_shr_assign_3_1 a0 a1 a2) /\ val (gen_shr_assign_3_1 a0 a1 a2) = val [a0; a1; a2] / 2 ^ 1) /\
+  (wf (gen_shr_assign_3_63 a0 a1 a2) /\ val (gen_shr_assign_3_63 a0 a1 a2) = val [a0; a1; a2] / 2 ^ 63) /\
+  (wf (gen_shr_assign_3_64 a0 a1 a2) /\ val (gen_shr_assign_3_64 a0 a1 a2) = val [a0; a1; a2] / 2 ^ 64) /\
+  (wf (gen_shr_assign_3_65 a0 a1 a2) /\ val (gen_shr_assign_3_65 a0 a1 a2) = val [a0; a1; a2] / 2 ^ 65) /\
+  (wf (gen_shr_assign_3_127 a0 a1 a2) /\ val (gen_shr_assign_3_127 a0 a1 a2) = val [a0; a1; a2] / 2 ^ 127) /\
+  (wf (gen_shr_assign_3_128 a0 a1 a2) /\ val (gen_shr_assign_3_128 a0 a1 a2) = val [a0; a1; a2] / 2 ^ 128) /\
+  (wf (gen_shr_assign_3_191 a0 a1 a2) /\ val (gen_shr_assign_3_191 a0 a1 a2) = val [a0; a1; a2] / 2 ^ 191) /\
+  (wf (gen_shr_assign_3_192 a0 a1 a2) /\ val (gen_shr_assign_3_192 a0 a1 a2) = val [a0; a1; a2] / 2 ^ 192) /\
+  (wf (gen_shr_assign_3_193 a0 a1 a2) /\ val (gen_shr_assign_3_193 a0 a1 a2) = val [a0; a1; a2] / 2 ^ 193).
+Proof. intros Ha. repeat split; (pose proof (gen_shr_assign_3_eq a0 a1 a2) as E; use_eqs E); shift_close Ha. Qed.
+Lemma gen_shr_assign_4_eq a0 a1 a2 a3 :
+  gen_shr_assign_4_0 a0 a1 a2 a3 = shr [a0; a1; a2; a3] 0 /\
+  gen_shr_assign_4_1 a0 a1 a2 a3 = shr [a0; a1; a2; a3] 1 /\
+  gen_shr_assign_4_63 a0 a1 a2 a3 = shr [a0; a1; a2; a3] 63 /\
+  gen_shr_assign_4_64 a0 a1 a2 a3 = shr [a0; a1; a2; a3] 64 /\
+  gen_shr_assign_4_65 a0 a1 a2 a3 = shr [a0; a1; a2; a3] 65 /\
+  gen_shr_assign_4_127 a0 a1 a2 a3 = shr [a0; a1; a2; a3] 127 /\
+  gen_shr_assign_4_128 a0 a1 a2 a3 = shr [a0; a1; a2; a3] 128 /\
+  gen_shr_assign_4_255 a0 a1 a2 a3 = shr [a0; a1; a2; a3] 255 /\
+  gen_shr_assign_4_256 a0 a1 a2 a3 = shr [a0; a1; a2; a3] 256 /\
+  gen_shr_assign_4_257 a0 a1 a2 a3 = shr [a0; a1; a2; a3] 257.
+Proof. repeat split; reflexivity. Qed.
+Lemma gen_shr_assign_4_spec a0 a1 a2 a3 :
+  wf [a0; a1; a2; a3] ->
+  (wf (gen_shr_assign_4_0 a0 a1 a2 a3) /\ val (gen_shr_assign_4_0 a0 a1 a2 a3) = val [a0; a1; a2; a3] / 2 ^ 0) /\
+  (wf (gen_shr_assign_4_1 a0 a1 a2 a3) /\ val (gen_shr_assign_4_1 a0 a1 a2 a3) = val [a0; a1; a2; a3] / 2 ^ 1) /\
+  (wf (gen_shr_assign_4_63 a0 a1 a2 a3) /\ val (gen_shr_assign_4_63 a0 a1 a2 a3) = val [a0; a1; a2; a3] / 2 ^ 63) /\
+  (wf (gen_shr_assign_4_64 a0 a1 a2 a3) /\ val (gen_shr_assign_4_64 a0 a1 a2 a3) = val [a0; a1; a2; a3] / 2 ^ 64) /\
+  (wf (gen_shr_assign_4_65 a0 a1 a2 a3) /\ val (gen_shr_assign_4_65 a0 a1 a2 a3) = val [a0; a1; a2; a3] / 2 ^ 65) /\
+  (wf (gen_shr_assign_4_127 a0 a1 a2 a3) /\ val (gen_shr_assign_4_127 a0 a1 a2 a3) = val [a0; a1; a2; a3] / 2 ^ 127) /\
+  (wf (gen_shr_assign_4_128 a0 a1 a2 a3) /\ val (gen_shr_assign_4_128 a0 a1 a2 a3) = val [a0; a1; a2; a3] / 2 ^ 128) /\
+  (wf (gen_shr_assign_4_255 a0 a1 a2 a3) /\ val (gen_shr_assign_4_255 a0 a1 a2 a3) = val [a0; a1; a2; a3] / 2 ^ 255) /\
+  (wf (gen_shr_assign_4_256 a0 a1 a2 a3) /\ val (gen_shr_assign_4_256 a0 a1 a2 a3) = val [a0; a1; a2; a3] / 2 ^ 256) /\
+  (wf (gen_shr_assign_4_257 a0 a1 a2 a3) /\ val (gen_shr_assign_4_257 a0 a1 a2 a3) = val [a0; a1; a2; a3] / 2 ^ 257).
+Proof. intros Ha. repeat split; (pose proof (gen_shr_assign_4_eq a0 a1 a2 a3) as E; use_eqs E); shift_close Ha. Qed.
+Lemma gen_shl_1_eq a0 :
+  gen_shl_1_0 a0 = shl [a0] 0 /\
+  gen_shl_1_1 a0 = shl [a0] 1 /\
+  gen_shl_1_63 a0 = shl [a0] 63 /\
+  gen_shl_1_64 a0 = shl [a0] 64 /\
+  gen_shl_1_65 a0 = shl [a0] 65 /\
+  gen_shl_1_127 a0 = shl [a0] 127 /\
+  gen_shl_1_128 a0 = shl [a0] 128.
+Proof. repeat split; reflexivity. Qed.
+Lemma gen_shl_1_spec a0 :
+  wf [a0] ->
+  (wf (gen_shl_1_0 a0) /\ val (gen_shl_1_0 a0) = (val [a0] * 2 ^ 0) mod Wn 1) /\
+  (wf (gen_shl_1_1 a0) /\ val (gen_shl_1_1 a0) = (val [a0] * 2 ^ 1) mod Wn 1) /\
+  (wf (gen_shl_1_63 a0) /\ val (gen_shl_1_63 a0) = (val [a0] * 2 ^ 63) mod Wn 1) /\
+  (wf (gen_shl_1_64 a0) /\ val (gen_shl_1_64 a0) = (val [a0] * 2 ^ 64) mod Wn 1) /\
+  (wf (gen_shl_1_65 a0) /\ val (gen_shl_1_65 a0) = (val [a0] * 2 ^ 65) mod Wn 1) /\
+  (wf (gen_shl_1_127 a0) /\ val (gen_shl_1_127 a0) = (val [a0] * 2 ^ 127) mod Wn 1) /\
+  (wf (gen_shl_1_128 a0) /\ val (gen_shl_1_128 a0) = (val [a0] * 2 ^ 128) mod Wn 1).
+Proof. intros Ha. repeat split; (pose proof (gen_shl_1_eq a0) as E; use_eqs E); shift_close Ha. Qed.
+Lemma gen_shl_2_eq a0 a1 :
+  gen_shl_2_0 a0 a1 = shl [a0; a1] 0 /\
+  gen_shl_2_1 a0 a1 = shl [a0; a1] 1 /\
+  gen_shl_2_63 a0 a1 = shl [a0; a1] 63 /\
+  gen_shl_2_64 a0 a1 = shl [a0; a1] 64 /\
+  gen_shl_2_65 a0 a1 = shl [a0; a1] 65 /\
+  gen_shl_2_127 a0 a1 = shl [a0; a1] 127 /\
+  gen_shl_2_128 a0 a1 = shl [a0; a1] 128 /\
+  gen_shl_2_129 a0 a1 = shl [a0; a1] 129.
+Proof. repeat split; reflexivity. Qed.
+Lemma gen_shl_2_spec a0 a1 :
+  wf [a0; a1] ->
+  (wf (gen_shl_2_0 a0 a1) /\ val (gen_shl_2_0 a0 a1) = (val [a0; a1] * 2 ^ 0) mod Wn 2) /\
+  (wf (gen_shl_2_1 a0 a1) /\ val (gen_shl_2_1 a0 a1) = (val [a0; a1] * 2 ^ 1) mod Wn 2) /\
+  (wf (gen_shl_2_63 a0 a1) /\ val (gen_shl_2_63 a0 a1) = (val [a0; a1] * 2 ^ 63) mod Wn 2) /\
+  (wf (gen_shl_2_64 a0 a1) /\ val (gen_shl_2_64 a0 a1) = (val [a0; a1] * 2 ^ 64) mod Wn 2) /\
+  (wf (gen_shl_2_65 a0 a1) /\ val (gen_shl_2_65 a0 a1) = (val [a0; a1] * 2 ^ 65) mod Wn 2) /\
+  (wf (gen_shl_2_127 a0 a1) /\ val (gen_shl_2_127 a0 a1) = (val [a0; a1] * 2 ^ 127) mod Wn 2) /\
+  (wf (gen_shl_2_128 a0 a1) /\ val (gen_shl_2_128 a0 a1) = (val [a0; a1] * 2 ^ 128) mod Wn 2) /\
+  (wf (gen_shl_2_129 a0 a1) /\ val (gen_shl_2_129 a0 a1) = (val [a0; a1] * 2 ^ 129) mod Wn 2).
+Proof. intros Ha. repeat split; (pose proof (gen_shl_2_eq a0 a1) as E; use_eqs E); shift_close Ha. Qed.
+Lemma gen_shl_3_eq a0 a1 a2 :
+  gen_shl_3_0 a0 a1 a2 = shl [a0; a1; a2] 0 /\
+  gen_shl_3_1 a0 a1 a2 = shl [a0; a1; a2] 1 /\
+  gen_shl_3_63 a0 a1 a2 = shl [a0; a1; a2] 63 /\
+  gen_shl_3_64 a0 a1 a2 = shl [a0; a1; a2] 64 /\
+  gen_shl_3_65 a0 a1 a2 = shl [a0; a1; a2] 65 /\
+  gen_shl_3_127 a0 a1 a2 = shl [a0; a1; a2] 127 /\
+  gen_shl_3_128 a0 a1 a2 = shl [a0; a1; a2] 128 /\
+  gen_shl_3_191 a0 a1 a2 = shl [a0; a1; a2] 191 /\
+  gen_shl_3_192 a0 a1 a2 = shl [a0; a1; a2] 192 /\
+  gen_shl_3_193 a0 a1 a2 = shl [a0; a1; a2] 193.
+Proof. repeat split; reflexivity. Qed.
+Lemma gen_shl_3_spec a0 a1 a2 :
+  wf [a0; a1; a2] ->
+  (wf (gen_shl_3_0 a0 a1 a2) /\ val (gen_shl_3_0 a0 a1 a2) = (val [a0; a1; a2] * 2 ^ 0) mod Wn 3) /\
+  (wf (gen_shl_3_1 a0 a1 a2) /\ val (gen_shl_3_1 a0 a1 a2) = (val [a0; a1; a2] * 2 ^ 1) mod Wn 3) /\
+  (wf (gen_shl_3_63 a0 a1 a2) /\ val (gen_shl_3_63 a0 a1 a2) = (val [a0; a1; a2] * 2 ^ 63) mod Wn 3) /\
+  (wf (gen_shl_3_64 a0 a1 a2) /\ val (gen_shl_3_64 a0 a1 a2) = (val [a0; a1; a2] * 2 ^ 64) mod Wn 3) /\
+  (wf (gen_shl_3_65 a0 a1 a2) /\ val (gen_shl_3_65 a0 a1 a2) = (val [a0; a1; a2] * 2 ^ 65) mod Wn 3) /\
+  (wf (gen_shl_3_127 a0 a1 a2) /\ val (gen_shl_3_127 a0 a1 a2) = (val [a0; a1; a2] * 2 ^ 127) mod Wn 3) /\
+  (wf (gen_shl_3_128 a0 a1 a2) /\ val (gen_shl_3_128 a0 a1 a2) = (val [a0; a1; a2] * 2 ^ 128) mod Wn 3) /\
+  (wf (gen_shl_3_191 a0 a1 a2) /\ val (gen_shl_3_191 a0 a1 a2) = (val [a0; a1; a2] * 2 ^ 191) mod Wn 3) /\
+  (wf (gen_shl_3_192 a0 a1 a2) /\ val (gen_shl_3_192 a0 a1 a2) = (val [a0; a1; a2] * 2 ^ 192) mod Wn 3) /\
+  (wf (gen_shl_3_193 a0 a1 a2) /\ val (gen_shl_3_193 a0 a1 a2) = (val [a0; a1; a2] * 2 ^ 193) mod Wn 3).
+Proof. intros Ha. repeat split; (pose proof (gen_shl_3_eq a0 a1 a2) as E; use_eqs E); shift_close Ha. Qed.
+Lemma gen_shl_4_eq a0 a1 a2 a3 :
+  gen_shl_4_0 a0 a1 a2 a3 = shl [a0; a1; a2; a3] 0 /\
+  gen_shl_4_1 a0 a1 a2 a3 = shl [a0; a1; a2; a3] 1 /\
+  gen_shl_4_63 a0 a1 a2 a3 = shl [a0; a1; a2; a3] 63 /\
+  gen_shl_4_64 a0 a1 a2 a3 = shl [a0; a1; a2; a3] 64 /\
+  gen_shl_4_65 a0 a1 a2 a3 = shl [a0; a1; a2; a3] 65 /\
+  gen_shl_4_127 a0 a1 a2 a3 = shl [a0; a1; a2; a3] 127 /\
+  gen_shl_4_128 a0 a1 a2 a3 = shl [a0; a1; a2; a3] 128 /\
+  gen_shl_4_255 a0 a1 a2 a3 = shl [a0; a1; a2; a3] 255 /\
+  gen_shl_4_256 a0 a1 a2 a3 = shl [a0; a1; a2; a3] 256 /\
+  gen_shl_4_257 a0 a1 a2 a3 = shl [a0; a1; a2; a3] 257.
+Proof. repeat split; reflexivity. Qed.
+Lemma gen_shl_4_spec a0 a1 a2 a3 :
+  wf [a0; a1; a2; a3] ->
+  (wf (gen_shl_4_0 a0 a1 a2 a3) /\ val (gen_shl_4_0 a0 a1 a2 a3) = (val [a0; a1; a2; a3] * 2 ^ 0) mod Wn 4) /\
+  (wf (gen_shl_4_1 a0 a1 a2 a3) /\ val (gen_shl_4_1 a0 a1 a2 a3) = (val [a0; a1; a2; a3] * 2 ^ 1) mod Wn 4) /\
+  (wf (gen_shl_4_63 a0 a1 a2 a3) /\ val (gen_shl_4_63 a0 a1 a2 a3) = (val [a0; a1; a2; a3] * 2 ^ 63) mod Wn 4) /\
+  (wf (gen_shl_4_64 a0 a1 a2 a3) /\ val (gen_shl_4_64 a0 a1 a2 a3) = (val [a0; a1; a2; a3] * 2 ^ 64) mod Wn 4) /\
+  (wf (gen_shl_4_65 a0 a1 a2 a3) /\ val (gen_shl_4_65 a0 a1 a2 a3) = (val [a0; a1; a2; a3] * 2 ^ 65) mod Wn 4) /\
+  (wf (gen_shl_4_127 a0 a1 a2 a3) /\ val (gen_shl_4_127 a0 a1 a2 a3) = (val [a0; a1; a2; a3] * 2 ^ 127) mod Wn 4) /\
+  (wf (gen_shl_4_128 a0 a1 a2 a3) /\ val (gen_shl_4_128 a0 a1 a2 a3) = (val [a0; a1; a2; a3] * 2 ^ 128) mod Wn 4) /\
+  (wf (gen_shl_4_255 a0 a1 a2 a3) /\ val (gen_shl_4_255 a0 a1 a2 a3) = (val [a0; a1; a2; a3] * 2 ^ 255) mod Wn 4) /\
+  (wf (gen_shl_4_256 a0 a1 a2 a3) /\ val (gen_shl_4_256 a0 a1 a2 a3) = (val [a0; a1; a2; a3] * 2 ^ 256) mod Wn 4) /\
+  (wf (gen_shl_4_257 a0 a1 a2 a3) /\ val (gen_shl_4_257 a0 a1 a2 a3) = (val [a0; a1; a2; a3] * 2 ^ 257) mod Wn 4).
+Proof. intros Ha. repeat split; (pose proof (gen_shl_4_eq a0 a1 a2 a3) as E; use_eqs E); shift_close Ha. Qed.
+Lemma gen_shr_1_eq a0 :
+  gen_shr_1_0 a0 = shr [a0] 0 /\
+  gen_shr_1_1 a0 = shr [a0] 1 /\
+  gen_shr_1_63 a0 = shr [a0] 63 /\
+  gen_shr_1_64 a0 = shr [a0] 64 /\
+  gen_shr_1_65 a0 = shr [a0] 65 /\
+  gen_shr_1_127 a0 = shr [a0] 127 /\
+  gen_shr_1_128 a0 = shr [a0] 128.
+Proof. repeat split; reflexivity. Qed.
+Lemma gen_shr_1_spec a0 :
+  wf [a0] ->
+  (wf (gen_shr_1_0 a0) /\ val (gen_shr_1_0 a0) = val [a0] / 2 ^ 0) /\
+  (wf (gen_shr_1_1 a0) /\ val (gen_shr_1_1 a0) = val [a0] / 2 ^ 1) /\
+  (wf (gen_shr_1_63 a0) /\ val (gen_shr_1_63 a0) = val [a0] / 2 ^ 63) /\
+  (wf (gen_shr_1_64 a0) /\ val (gen_shr_1_64 a0) = val [a0] / 2 ^ 64) /\
+  (wf (gen_shr_1_65 a0) /\ val (gen_shr_1_65 a0) = val [a0] / 2 ^ 65) /\
+  (wf (gen_shr_1_127 a0) /\ val (gen_shr_1_127 a0) = val [a0] / 2 ^ 127) /\
+  (wf (gen_shr_1_128 a0) /\ val (gen_shr_1_128 a0) = val [a0] / 2 ^ 128).
+Proof. intros Ha. repeat split; (pose proof (gen_shr_1_eq a0) as E; use_eqs E); shift_close Ha. Qed.
+Lemma gen_shr_2_eq a0 a1 :
+  gen_shr_2_0 a0 a1 = shr [a0; a1] 0 /\
+  gen_shr_2_1 a0 a1 = shr [a0; a1] 1 /\
+  gen_shr_2_63 a0 a1 = shr [a0; a1] 63 /\
+  gen_shr_2_64 a0 a1 = shr [a0; a1] 64 /\
+  gen_shr_2_65 a0 a1 = shr [a0; a1] 65 /\
+  gen_shr_2_127 a0 a1 = shr [a0; a1] 127 /\
+  gen_shr_2_128 a0 a1 = shr [a0; a1] 128 /\
+  gen_shr_2_129 a0 a1 = shr [a0; a1] 129.
+Proof. repeat split; reflexivity. Qed.
+Lemma gen_shr_2_spec a0 a1 :
+  wf [a0; a1] ->
+  (wf (gen_shr_2_0 a0 a1) /\ val (gen_shr_2_0 a0 a1) = val [a0; a1] / 2 ^ 0) /\
+  (wf (gen_shr_2_1 a0 a1) /\ val (gen_shr_2_1 a0 a1) = val [a0; a1] / 2 ^ 1) /\
+  (wf (gen_shr_2_63 a0 a1) /\ val (gen_shr_2_63 a0 a1) = val [a0; a1] / 2 ^ 63) /\
+  (wf (gen_shr_2_64 a0 a1) /\ val (gen_shr_2_64 a0 a1) = val [a0; a1] / 2 ^ 64) /\
+  (wf (gen_shr_2_65 a0 a1) /\ val (gen_shr_2_65 a0 a1) = val [a0; a1] / 2 ^ 65) /\
+  (wf (gen_shr_2_127 a0 a1) /\ val (gen_shr_2_127 a0 a1) = val [a0; a1] / 2 ^ 127) /\
+  (wf (gen_shr_2_128 a0 a1) /\ val (gen_shr_2_128 a0 a1) = val [a0; a1] / 2 ^ 128) /\
+  (wf (gen_shr_2_129 a0 a1) /\ val (gen_shr_2_129 a0 a1) = val [a0; a1] / 2 ^ 129).
+Proof. intros Ha. repeat split; (pose proof (gen_shr_2_eq a0 a1) as E; use_eqs E); shift_close Ha. Qed.
+Lemma gen_shr_3_eq a0 a1 a2 :
+  gen_shr_3_0 a0 a1 a2 = shr [a0; a1; a2] 0 /\
+  gen_shr_3_1 a0 a1 a2 = shr [a0; a1; a2] 1 /\
+  gen_shr_3_63 a0 a1 a2 = shr [a0; a1; a2] 63 /\
+  gen_shr_3_64 a0 a1 a2 = shr [a0; a1; a2] 64 /\
+  gen_shr_3_65 a0 a1 a2 = shr [a0; a1; a2] 65 /\
+  gen_shr_3_127 a0 a1 a2 = shr [a0; a1; a2] 127 /\
+  gen_shr_3_128 a0 a1 a2 = shr [a0; a1; a2] 128 /\
+  gen_shr_3_191 a0 a1 a2 = shr [a0; a1; a2] 191 /\
+  gen_shr_3_192 a0 a1 a2 = shr [a0; a1; a2] 192 /\
+  gen_shr_3_193 a0 a1 a2 = shr [a0; a1; a2] 193.
+Proof. repeat split; reflexivity. Qed.
+Lemma gen_shr_3_spec a0 a1 a2 :
+  wf [a0; a1; a2] ->
+  (wf (gen_shr_3_0 a0 a1 a2) /\ val (gen_shr_3_0 a0 a1 a2) = val [a0; a1; a2] / 2 ^ 0) /\
+  (wf (gen_shr_3_1 a0 a1 a2) /\ val (gen_shr_3_1 a0 a1 a2) = val [a0; a1; a2] / 2 ^ 1) /\
+  (wf (gen_shr_3_63 a0 a1 a2) /\ val (gen_shr_3_63 a0 a1 a2) = val [a0; a1; a2] / 2 ^ 63) /\
+  (wf (gen_shr_3_64 a0 a1 a2) /\ val (gen_shr_3_64 a0 a1 a2) = val [a0; a1; a2] / 2 ^ 64) /\
+  (wf (gen_shr_3_65 a0 a1 a2) /\ val (gen_shr_3_65 a0 a1 a2) = val [a0; a1; a2] / 2 ^ 65) /\
+  (wf (gen_shr_3_127 a0 a1 a2) /\ val (gen_shr_3_127 a0 a1 a2) = val [a0; a1; a2] / 2 ^ 127) /\
+  (wf (gen_shr_3_128 a0 a1 a2) /\ val (gen_shr_3_128 a0 a1 a2) = val [a0; a1; a2] / 2 ^ 128) /\
+  (wf (gen_shr_3_191 a0 a1 a2) /\ val (gen_shr_3_191 a0 a1 a2) = val [a0; a1; a2] / 2 ^ 191) /\
+  (wf (gen_shr_3_192 a0 a1 a2) /\ val (gen_shr_3_192 a0 a1 a2) = val [a0; a1; a2] / 2 ^ 192) /\
+  (wf (gen_shr_3_193 a0 a1 a2) /\ val (gen_shr_3_193 a0 a1 a2) = val [a0; a1; a2] / 2 ^ 193).
+Proof. intros Ha. repeat split; (pose proof (gen_shr_3_eq a0 a1 a2) as E; use_eqs E); shift_close Ha. Qed.
+Lemma gen_shr_4_eq a0 a1 a2 a3 :
+  gen_shr_4_0 a0 a1 a2 a3 = shr [a0; a1; a2; a3] 0 /\
+  gen_shr_4_1 a0 a1 a2 a3 = shr [a0; a1; a2; a3] 1 /\
+  gen_shr_4_63 a0 a1 a2 a3 = shr [a0; a1; a2; a3] 63 /\
+  gen_shr_4_64 a0 a1 a2 a3 = shr [a0; a1; a2; a3] 64 /\
+  gen_shr_4_65 a0 a1 a2 a3 = shr [a0; a1; a2; a3] 65 /\
+  gen_shr_4_127 a0 a1 a2 a3 = shr [a0; a1; a2; a3] 127 /\
+  gen_shr_4_128 a0 a1 a2 a3 = shr [a0; a1; a2; a3] 128 /\
+  gen_shr_4_255 a0 a1 a2 a3 = shr [a0; a1; a2; a3] 255 /\
+  gen_shr_4_256 a0 a1 a2 a3 = shr [a0; a1; a2; a3] 256 /\
+  gen_shr_4_257 a0 a1 a2 a3 = shr [a0; a1; a2; a3] 257.
+Proof. repeat split; reflexivity. Qed.
+Lemma gen_shr_4_spec a0 a1 a2 a3 :
+  wf [a0; a1; a2; a3] ->
+  (wf (gen_shr_4_0 a0 a1 a2 a3) /\ val (gen_shr_4_0 a0 a1 a2 a3) = val [a0; a1; a2; a3] / 2 ^ 0) /\
+  (wf (gen_shr_4_1 a0 a1 a2 a3) /\ val (gen_shr_4_1 a0 a1 a2 a3) = val [a0; a1; a2; a3] / 2 ^ 1) /\
+  (wf (gen_shr_4_63 a0 a1 a2 a3) /\ val (gen_shr_4_63 a0 a1 a2 a3) = val [a0; a1; a2; a3] / 2 ^ 63) /\
+  (wf (gen_shr_4_64 a0 a1 a2 a3) /\ val (gen_shr_4_64 a0 a1 a2 a3) = val [a0; a1; a2; a3] / 2 ^ 64) /\
+  (wf (gen_shr_4_65 a0 a1 a2 a3) /\ val (gen_shr_4_65 a0 a1 a2 a3) = val [a0; a1; a2; a3] / 2 ^ 65) /\
+  (wf (gen_shr_4_127 a0 a1 a2 a3) /\ val (gen_shr_4_127 a0 a1 a2 a3) = val [a0; a1; a2; a3] / 2 ^ 127) /\
+  (wf (gen_shr_4_128 a0 a1 a2 a3) /\ val (gen_shr_4_128 a0 a1 a2 a3) = val [a0; a1; a2; a3] / 2 ^ 128) /\
+  (wf (gen_shr_4_255 a0 a1 a2 a3) /\ val (gen_shr_4_255 a0 a1 a2 a3) = val [a0; a1; a2; a3] / 2 ^ 255) /\
+  (wf (gen_shr_4_256 a0 a1 a2 a3) /\ val (gen_shr_4_256 a0 a1 a2 a3) = val [a0; a1; a2; a3] / 2 ^ 256) /\
+  (wf (gen_shr_4_257 a0 a1 a2 a3) /\ val (gen_shr_4_257 a0 a1 a2 a3) = val [a0; a1; a2; a3] / 2 ^ 257).
+Proof. intros Ha. repeat split; (pose proof (gen_shr_4_eq a0 a1 a2 a3) as E; use_eqs E); shift_close Ha. Qed.
